@@ -46,6 +46,16 @@ structure Cfg where
 inductive Loc | none | pend (t : Nat) | queue (h : Nat) | batch (h : Nat) | run (h : Nat) | done
   deriving DecidableEq, Repr
 
+/-- the callback has been queued and has not finished -/
+def Loc.queued : Loc → Bool
+  | .queue _ | .batch _ | .run _ => true
+  | _ => false
+
+/-- the callback has been invoked -/
+def Loc.invoked : Loc → Bool
+  | .run _ | .done => true
+  | _ => false
+
 inductive Via | thr | cpu | dflt | ext
   deriving DecidableEq, Repr
 
@@ -169,7 +179,7 @@ inductive Label
   | fDel (t : Nat) | fJoin (t : Nat) | fFree (t : Nat)
   -- helper thread
   | hStart (h : Nat) | hDec0 (h : Nat) | hTop (h : Nat) | hPause (h : Nat) | hUnpause (h : Nat)
-  | hSplice (h : Nat) | hGpEnd (h : Nat) | hRunBegin (h : Nat) | hRunEnd (h : Nat) | hInvDone (h : Nat)
+  | hSplice (h : Nat) | hGpEnd (h : Nat) | hRunBegin (h cb : Nat) | hRunEnd (h : Nat) | hInvDone (h : Nat)
   | hSub (h : Nat) | hStopChk (h : Nat) | hEmptyChk (h : Nat) | hWaitLd (h : Nat) | hWaitFx (h : Nat) (o : FOut)
   | hSpurious (h : Nat) | hPollW (h : Nat) | hDec (h : Nat) | hPollN (h : Nat) | hExitSt (h : Nat) | hExitOr (h : Nat)
   -- hooks for outer layers (rcu_barrier, fork handlers)
@@ -529,15 +539,13 @@ def step (c : Cfg) (s : State) : Label → Option State
         some { s with hpc := upd s.hpc h .inv, gpDone := max s.gpDone a, clock := s.clock + 1 }
       else none
     | none => none
-  | .hRunBegin h =>
-    match s.batch h with
-    | cb :: rest =>
-      if s.hpc h = .inv then
-        some { s with hpc := upd s.hpc h .run, batch := upd s.batch h rest, cur := upd s.cur h (some cb),
-                      invLog := upd s.invLog h (s.invLog h ++ [cb]),
-                      loc := upd s.loc cb (.run h), invN := upd s.invN cb (s.invN cb + 1), clock := s.clock + 1 }
-      else none
-    | [] => none
+  | .hRunBegin h cb =>
+    -- `cb` must be the first callback of the batch (`__cds_wfcq_for_each_blocking_safe` order)
+    if s.hpc h = .inv ∧ (s.batch h).head? = some cb then
+      some { s with hpc := upd s.hpc h .run, batch := upd s.batch h (s.batch h).tail, cur := upd s.cur h (some cb),
+                    invLog := upd s.invLog h (s.invLog h ++ [cb]),
+                    loc := upd s.loc cb (.run h), invN := upd s.invN cb (s.invN cb + 1), clock := s.clock + 1 }
+    else none
   | .hRunEnd h =>
     match s.cur h with
     | some cb =>
